@@ -1029,8 +1029,21 @@ def r15_3_mirror(ctx):
 
 def _inloop_atoms(f: Fn, n: ast.AST, loop: ast.AST) -> Set[Tuple[str, bool]]:
     """canonical, alpha-renamed guard atoms (inside `loop`) under which `n` is evaluated"""
-    return {f.alpha.atom(b.ast, b.pol) for b in f.cfg.guard_nodes(f.nid(n))
-            if any(x is loop for x in S._ancestors_list(b.ast)) and not isinstance(b.ast, ast.BoolOp)}
+    out = set()
+    for b in f.cfg.guard_nodes(f.nid(n)):
+        if not any(x is loop for x in S._ancestors_list(b.ast)):
+            continue
+        if isinstance(b.ast, ast.BoolOp):
+            # a compound test held as a whole (the failing side of `a and b`, the passing side of `a or b`): a condition like any other.
+            # Its parts appear as atoms of their own on the side where they are all known; there the whole says nothing new.
+            parts = {f.alpha.atom(v, True)[0] for v in b.ast.values}
+            known = {t for t, _ in {f.alpha.atom(x.ast, x.pol) for x in f.cfg.guard_nodes(f.nid(n)) if not isinstance(x.ast, ast.BoolOp)}}
+            if parts <= known:
+                continue
+            out.add((f.alpha.text(b.ast), b.pol))
+            continue
+        out.add(f.alpha.atom(b.ast, b.pol))
+    return out
 
 
 def _pair_loop(f: Fn) -> Optional[ast.For]:
